@@ -183,6 +183,24 @@ Definition good_config (prefix : bytes) (sk : list bytes) : bool :=
 Definition outside_untouched (prefix : bytes) (sk : list bytes) (pre post : store) : bool :=
   forallb (fun x => in_charge prefix sk (rkey x) || existsb (same_slot x) post) pre.
 
+(* the observed borders (encoded keys), taken pairwise: ascending, no inverted or empty pair, and their
+   union is exactly the keys in charge (tested on the keys of the store) *)
+Definition in_borders (bs : list bytes) (k : bytes) : bool :=
+  existsb (fun p => bleb (fst p) (encode k 0) && bltb (encode k 0) (snd p)) (pairs bs).
+
+Fixpoint ascending (bs : list bytes) : bool :=
+  match bs with
+  | a :: t => match t with b :: _ => bleb a b && ascending t | [] => true end
+  | [] => true
+  end.
+
+Definition pairs_proper (bs : list bytes) : bool :=
+  Nat.even (length bs) && forallb (fun p => bltb (fst p) (snd p)) (pairs bs) && ascending bs.
+
+Definition borders_oracle (prefix : bytes) (sk : list bytes) (bs : list bytes) (V : store) : option N :=
+  if pairs_proper bs && forallb (fun x => Bool.eqb (in_borders bs (rkey x)) (in_charge prefix sk (rkey x))) V then None
+  else if good_config prefix sk then Some 0 else Some 1.
+
 Definition has_delcas (v : c07_variant) : bool :=
   existsb (fun p => match p with (KDel, (_, OFailCond)) => true | _ => false end) (combine (v7_kinds v) (v7_oc v)).
 
@@ -241,4 +259,11 @@ Fixpoint first_some {A} (f : A -> option N) (l : list A) : option N :=
   end.
 
 Definition c07_oracle (c : c07_case) : option N :=
-  first_some (variant_oracle (c7_prefix c) (c7_skipped c) (c7_pre c) (c7_reads c) (c7_before c)) (c7_variants c).
+  match borders_oracle (c7_prefix c) (c7_skipped c) (c7_borders c) (c7_pre c) with
+  | Some 0 => Some 0
+  | b =>
+  match first_some (variant_oracle (c7_prefix c) (c7_skipped c) (c7_pre c) (c7_reads c) (c7_before c)) (c7_variants c) with
+  | Some code => Some code
+  | None => b
+  end
+  end.
